@@ -2,7 +2,7 @@
 import ast
 
 from ..model import AnalysisError, Model, walk_no_nested, norm_stmt, names_in
-from .. import flow, protocol
+from .. import flow, protocol, sem
 
 EXPLANATION = (
     'Decided for every decoding codec (ber, per, oer, jer, xer; der/uper inherit): (R1) every decode entry point of ENUMERATED and CHOICE '
@@ -18,55 +18,60 @@ RELS = {c: 'asn1tools/codecs/%s.py' % c for c in ('ber', 'per', 'uper', 'oer', '
 ENTRY = ('decode', 'decode_content', 'decode_of', 'decode_additions', 'decode_root')
 
 
-def returns_none_paths(f):
-    """Return statements yielding the absent value: None, (None, None), ((None, None), offset), (None, end_offset)."""
+def class_helpers(c, f, depth=2):
+    """f and the methods of its class that it calls through self (to a small depth), entry points excluded."""
+    seen = [f]
+    frontier = [f]
+    for _ in range(depth):
+        nxt = []
+        for g in frontier:
+            for call in walk_no_nested(g):
+                if isinstance(call, ast.Call) and isinstance(call.func, ast.Attribute) and isinstance(call.func.value, ast.Name) and call.func.value.id == 'self':
+                    r = c.find_method(call.func.attr)
+                    if r and r[1] not in seen and r[1].name not in ENTRY:
+                        seen.append(r[1])
+                        nxt.append(r[1])
+        frontier = nxt
+    return seen
+
+
+def _first_flat(e):
+    while isinstance(e, ast.Tuple) and e.elts:
+        e = e.elts[0]
+    return e
+
+
+def absent_paths(f):
+    """Paths of f that return the absent value (None first: None, (None, None), ((None, None), offset)) for an item the type does
+    not know -- by an explicit test (failed lookup / extensibility condition) or by a dict .get() on a map of additions.
+    -> (list of (path, how), decided)"""
+    ps = sem.paths(f)
+    if ps is None:
+        return [], False
     out = []
-    for n in walk_no_nested(f):
-        if isinstance(n, ast.Return) and n.value is not None:
-            v = n.value
-            flat = []
-
-            def fl(e):
-                if isinstance(e, ast.Tuple):
-                    for x in e.elts:
-                        fl(x)
-                else:
-                    flat.append(e)
-            fl(v)
-            if flat and isinstance(flat[0], ast.Constant) and flat[0].value is None:
-                out.append(n)
-    return out
-
-
-def none_assign_paths(f):
-    """`name = None` assignments of a variable that is returned (PER Choice.decode_additions idiom)."""
-    rets = set()
-    for n in walk_no_nested(f):
-        if isinstance(n, ast.Return) and n.value is not None:
-            rets |= names_in(n.value)
-    out = []
-    for n in walk_no_nested(f):
-        if isinstance(n, ast.Assign) and isinstance(n.value, ast.Constant) and n.value.value is None \
-                and isinstance(n.targets[0], ast.Name) and n.targets[0].id in rets:
-            out.append(n)
-    return out
+    for p in ps:
+        if p.outcome[0] != 'return' or len(p.outcome) < 4:
+            continue
+        e = _first_flat(p.outcome[3])
+        if isinstance(e, ast.Constant) and e.value is None:
+            ext = p.mentions('has_extension_marker') or p.mentions('addition')
+            failed = any((not c[1]) and ' in self.' in c[0] for c in p.conds) or any(c[1] and ' is None' in c[0] and 'self.' in c[0] for c in p.conds)
+            if ext or failed:
+                out.append((p, 'explicit'))
+        elif isinstance(e, ast.Call) and isinstance(e.func, ast.Attribute) and e.func.attr == 'get' and len(e.args) == 1 and ast.unparse(e.func.value).startswith('self.') \
+                and (p.mentions('addition') or 'addition' in ast.unparse(e.func.value)):
+            out.append((p, 'dict.get on a map of additions'))
+    return out, True
 
 
 def is_lookup_function(f):
-    """Does f look the received item up in a self-rooted map (in / [] / try-KeyError)?"""
+    """Does f look the received item up in a self-rooted map (in / [] / .get / try-KeyError)?"""
     for n in walk_no_nested(f):
         if isinstance(n, ast.Compare) and isinstance(n.ops[0], (ast.In, ast.NotIn)) and ast.unparse(n.comparators[0]).startswith('self.'):
             return True
         if isinstance(n, ast.Subscript) and ast.unparse(n.value).startswith('self.') and isinstance(n.ctx, ast.Load) and not isinstance(n.slice, (ast.Slice, ast.Constant)):
             return True
-    return False
-
-
-def ext_guard(node, f):
-    """The guards of node mention extensibility (has_extension_marker / additions) or follow a failed lookup."""
-    for t, pol in flow.guards_of(node, f):
-        s = ast.unparse(t)
-        if 'has_extension_marker' in s or 'additions' in s or 'addition is None' in s:
+        if isinstance(n, ast.Call) and isinstance(n.func, ast.Attribute) and n.func.attr == 'get' and ast.unparse(n.func.value).startswith('self.'):
             return True
     return False
 
@@ -87,26 +92,30 @@ def check(ctx):
             c = m.classes.get(kind)
             if c is None:
                 raise AnalysisError('%s.%s vanished' % (codec, kind))
-            entries = [(n, f) for n, f in c.methods.items() if n in ENTRY and is_lookup_function(f)]
+            entries = [(n, f) for n, f in c.methods.items() if n in ENTRY and any(is_lookup_function(g) for g in class_helpers(c, f))]
             if not entries:
                 raise AnalysisError('%s.%s: no decode entry point with a lookup' % (codec, kind))
             verdicts = {}
             for name, f in entries:
-                rets = [r for r in returns_none_paths(f) if ext_guard(r, f)]
-                asg = [a for a in none_assign_paths(f) if ext_guard(a, f)]
-                # PER Enumerated.decode: `else: return None` inside the additions branch
-                if not rets and kind == 'Enumerated':
-                    rets = [r for r in returns_none_paths(f) if any('index_to_data' in ast.unparse(t) or 'additions' in ast.unparse(t) for t, pol in flow.guards_of(r, f))]
-                ok = bool(rets or asg)
                 # decode_root of PER Choice/Enumerated handles root indexes only: unknown root index is an error by X.691
                 if name == 'decode_root' and codec == 'per':
                     ctx.instance('C07.R1', '%s.%s.%s (root index: never an addition)' % (codec, kind, name), 'n/a', nontrivial=False, node=f, file=m.rel)
                     continue
+                found = []
+                decided = True
+                for g in class_helpers(c, f):
+                    ap, dec_ = absent_paths(g)
+                    found.extend(ap)
+                    decided = decided and dec_
+                ok = bool(found)
                 verdicts[name] = ok
                 n1 += 1
-                ctx.instance('C07.R1', '%s.%s.%s' % (codec, kind, name), 'has unknown-item path' if ok else 'VIOLATION', node=f, file=m.rel)
+                if not ok and not decided:
+                    ctx.instance('C07.R1', '%s.%s.%s' % (codec, kind, name), 'undecided', 'too many paths', nontrivial=False, node=f, file=m.rel)
+                    continue
+                ctx.instance('C07.R1', '%s.%s.%s' % (codec, kind, name), 'has unknown-item path' if ok else 'VIOLATION', found[0][1] if found else '', node=f, file=m.rel)
                 if not ok:
-                    others = [k for k, v in verdicts.items() if v] + [n_ for n_, g in entries if n_ != name and (returns_none_paths(g) or none_assign_paths(g))]
+                    others = [k for k, v in verdicts.items() if v] + [n_ for n_, g in entries if n_ != name and absent_paths(g)[0]]
                     ctx.violation('C07.R1', m.rel, f, '%s::%s.%s' % (m.rel, kind, name),
                                   '%s.%s.%s looks the received item up but has no path that reports an unknown item of an extensible type as absent (%s): '
                                   'a value produced by a newer version of the specification is rejected instead of being projected%s'
@@ -118,39 +127,45 @@ def check(ctx):
     # CHOICE: the unknown alternative is consumed by its length
     ber = model.mod(RELS['ber'])
     f = ber.classes['Choice'].methods['decode']
-    ok = any(isinstance(c, ast.Call) and ast.unparse(c.func) == 'skip_tag_length_contents' and ext_guard(c, f) for c in walk_no_nested(f))
+    ps = sem.paths(f) or []
+    ok = any(p.outcome[0] == 'return' and p.calls('skip_tag_length_contents') and (p.mentions('has_extension_marker') or p.mentions('addition')) for p in ps)
     ctx.instance('C07.R1', 'ber.Choice.decode skips the unknown alternative (skip_tag_length_contents)', 'ok' if ok else 'VIOLATION', node=f, file=ber.rel)
     if not ok:
         ctx.violation('C07.R1', ber.rel, f, '%s::Choice.decode' % ber.rel, 'an unknown CHOICE alternative is not consumed: the components that follow are decoded from the wrong offset', stmt='skip unknown alternative')
     for codec, fn in (('per', 'decode_additions'), ('oer', 'decode')):
         m = model.mod(RELS[codec])
         f = m.classes['Choice'].methods[fn]
-        skips = [c for c in walk_no_nested(f) if isinstance(c, ast.Call) and ast.unparse(c.func) == 'decoder.skip_bits']
+        ps = sem.paths(f) or []
         ok = False
-        for s in skips:
-            a = s.args[0]
-            d, ed = flow.deps(f, sources=set())
-            # the skipped amount derives from a read_length_determinant in this function
-            names = names_in(a)
-            for nm in names:
-                for asg in walk_no_nested(f):
-                    if isinstance(asg, ast.Assign) and nm in [x for t in asg.targets for x in flow.target_names(t)] and 'read_length_determinant' in ast.unparse(asg.value):
-                        ok = True
+        for p in ps:
+            for t, n in p.calls('skip_bits'):
+                # the skipped amount is 8 * a length determinant read on this path
+                if 'read_length_determinant(' in t:
+                    ok = True
         ctx.instance('C07.R1', '%s.Choice.%s skips the unknown alternative by its open-type length' % (codec, fn), 'ok' if ok else 'VIOLATION', node=f, file=m.rel)
         if not ok:
             ctx.violation('C07.R1', m.rel, f, '%s::Choice.%s' % (m.rel, fn), 'an unknown CHOICE alternative is not skipped by the length determinant read for it', stmt='skip unknown alternative')
-    # SEQUENCE/SET
+    # SEQUENCE/SET: with a definite length the decoder resumes at offset + length whatever it found inside
     f = ber.classes['MembersType'].methods['decode_content']
-    src = ast.unparse(f)
-    ok = 'return (values, end_offset)' in src or 'return values, end_offset' in src
-    ctx.instance('C07.R1', 'ber.MembersType.decode_content returns end_offset (unknown trailing TLVs skipped)', 'ok' if ok else 'VIOLATION', node=f, file=ber.rel)
-    if not ok:
-        ctx.violation('C07.R1', ber.rel, f, '%s::MembersType.decode_content' % ber.rel, 'extra components of a newer version are no longer skipped by jumping to the end of the contents', stmt='return end_offset')
+    ps = sem.paths(f, positional=True)
+    if ps is None:
+        ctx.instance('C07.R1', 'ber.MembersType.decode_content returns end_offset', 'undecided', 'too many paths', nontrivial=False, node=f, file=ber.rel)
+    else:
+        want = sem.ctext(sem.parse_expr('ARG1 + ARG2'))
+        definite = [p for p in ps if p.outcome[0] == 'return' and p.has('ARG2 is None', False) and isinstance(p.outcome[3], ast.Tuple)]
+        # (when decode_members reports that the data ran out it already stopped at the end of the contents)
+        ran_out = lambda p: any(c[1] and 'decode_members(' in c[0] and c[0].endswith('[1]') for c in p.conds)
+        ok = any(sem.ctext(p.outcome[3].elts[-1]) == want for p in definite) and all(sem.ctext(p.outcome[3].elts[-1]) == want or ran_out(p) for p in definite)
+        ctx.instance('C07.R1', 'ber.MembersType.decode_content returns offset + length on the %d definite-length paths (unknown trailing TLVs skipped)' % len(definite), 'ok' if ok else 'VIOLATION', node=f, file=ber.rel)
+        if not ok:
+            ctx.violation('C07.R1', ber.rel, f, '%s::MembersType.decode_content' % ber.rel, 'extra components of a newer version are no longer skipped by jumping to the end of the contents', stmt='return end_offset')
     for codec in ('jer', 'xer'):
         m = model.mod(RELS[codec])
         f = m.classes['MembersType'].methods['decode']
-        loops_ = [n for n in walk_no_nested(f) if isinstance(n, ast.For)]
-        ok = any(ast.unparse(l.iter) == 'self.members' for l in loops_) and not any(isinstance(n, ast.Raise) for n in walk_no_nested(f) if not isinstance(getattr(n, '_parent', None), ast.ExceptHandler))
+        v = sem.View(f)
+        iters = [v.text(n.iter) for n in walk_no_nested(f) if isinstance(n, (ast.For, ast.comprehension))]
+        ok = any(t.startswith('self.') and 'member' in t for t in iters) and \
+            not any(isinstance(n, ast.Raise) for n in walk_no_nested(f) if not any(isinstance(a, ast.ExceptHandler) for a in flow.ancestors(n)))
         ctx.instance('C07.R1', '%s.MembersType.decode iterates over known members only and never rejects extra names' % codec, 'ok' if ok else 'VIOLATION', node=f, file=m.rel)
         if not ok:
             ctx.violation('C07.R1', m.rel, f, '%s::MembersType.decode' % m.rel, 'member names unknown to this version must be ignored, not rejected', stmt='unknown members')
@@ -159,46 +174,72 @@ def check(ctx):
     for codec in ('per', 'oer'):
         m = model.mod(RELS[codec])
         f = m.classes['MembersType'].methods['decode_additions']
+        ps = sem.paths(f)
+        if ps is None:
+            ctx.instance('C07.R5', '%s.MembersType.decode_additions' % codec, 'undecided', 'too many paths', nontrivial=False, node=f, file=m.rel)
+            continue
+        v = sem.View(f)
+        # the presence bitmap: the field read whose width is used as the count of the loop over the additions
         loops_ = [n for n in walk_no_nested(f) if isinstance(n, ast.For)]
-        lens = [c for c in walk_no_nested(f) if isinstance(c, ast.Call) and ast.unparse(c.func) == 'decoder.read_length_determinant'
-                and any(isinstance(a, ast.For) for a in flow.ancestors(c))]
-        # the presence-bit variable: read with the width of the bitmap
+        reads = [c for c in sem.method_calls(f, 'read_non_negative_binary_integer', v) if not any(isinstance(a, (ast.For, ast.While)) for a in flow.ancestors(c))]
         pres = None
-        for a in walk_no_nested(f):
-            if isinstance(a, ast.Assign) and isinstance(a.value, ast.Call) and ast.unparse(a.value.func) == 'decoder.read_non_negative_binary_integer' and isinstance(a.targets[0], ast.Name):
-                pres = a.targets[0].id
-                width = ast.unparse(a.value.args[0])
-        if pres is None or not loops_:
-            raise AnalysisError('%s.MembersType.decode_additions: presence bitmap read not found' % codec)
-        # R5: loop over range(<bitmap width>) and each LENDET read guarded by presence & (1 << ...)
-        loop = loops_[0]
-        okloop = ast.unparse(loop.iter) == 'range(%s)' % width and len(loops_) == 1
-        ctx.instance('C07.R5', '%s.MembersType.decode_additions loops over all %s presence bits' % (codec, width), 'ok' if okloop else 'VIOLATION', node=loop, file=m.rel)
-        if not okloop:
-            ctx.violation('C07.R5', m.rel, loop, '%s::MembersType.decode_additions' % m.rel,
-                          'the additions must be consumed in one loop over all presence bits (range(%s)); found %s' % (width, [ast.unparse(l.iter) for l in loops_]), stmt='presence loop')
-        all_lens = [c for c in walk_no_nested(f) if isinstance(c, ast.Call) and ast.unparse(c.func) == 'decoder.read_length_determinant']
-        # (the first one in OER reads the bitmap length itself, outside the loop)
-        for c in all_lens:
-            inloop = any(a is loop for a in flow.ancestors(c))
-            if not inloop and c.lineno < loop.lineno and codec == 'oer':
+        loop = None
+        for c in reads:
+            if not c.args:
                 continue
-            guarded = any(isinstance(t, ast.BinOp) and isinstance(t.op, ast.BitAnd) and pres in names_in(t) and pol for t, pol in flow.guards_of(c, f))
-            ok = inloop and guarded
-            ctx.instance('C07.R5', '%s.MembersType.decode_additions: open-type length read under `%s & (1 << ..)`' % (codec, pres), 'ok' if ok else 'VIOLATION', node=c, file=m.rel)
+            w = v.text(c.args[0])
+            for lp in loops_:
+                if v.text(lp.iter) == 'range(%s)' % w:
+                    pres, loop, width = c, lp, w
+        if pres is None:
+            # either the loop no longer covers all presence bits or the shape is not followed
+            if reads and loops_:
+                ctx.instance('C07.R5', '%s.MembersType.decode_additions loops over all presence bits' % codec, 'VIOLATION', node=loops_[0], file=m.rel)
+                ctx.violation('C07.R5', m.rel, loops_[0], '%s::MembersType.decode_additions' % m.rel,
+                              'the additions must be consumed in one loop over all presence bits (range(<width of the bitmap read>)); found %s' % [v.text(l.iter) for l in loops_], stmt='presence loop')
+            else:
+                ctx.instance('C07.R5', '%s.MembersType.decode_additions' % codec, 'undecided', 'presence bitmap read / loop not found', nontrivial=False, node=f, file=m.rel)
+            continue
+        ctx.instance('C07.R5', '%s.MembersType.decode_additions loops over all %s presence bits' % (codec, width), 'ok', node=loop, file=m.rel)
+        pres_text = v.text(pres)
+        body_paths = [p for p in sem.with_loop_bodies(ps) if p.outcome[0] in ('fall', 'continue', 'break', 'return', 'raise')]
+        lens = [c for c in sem.method_calls(f, 'read_length_determinant', v) if any(a is loop for a in flow.ancestors(c))]
+        if not lens:
+            ctx.instance('C07.R5', '%s.MembersType.decode_additions: open-type length reads' % codec, 'VIOLATION', node=loop, file=m.rel)
+            ctx.violation('C07.R5', m.rel, loop, '%s::MembersType.decode_additions' % m.rel, 'no open-type length determinant is read inside the loop over the presence bits', stmt='length read not under presence test')
+        outside = [c for c in sem.method_calls(f, 'read_length_determinant', v) if c not in lens and (c.lineno, c.col_offset) > (pres.lineno, pres.col_offset)]
+        for c in lens + outside:
+            st_ = Model.enclosing_stmt(c)
+            reach = sem.reaching(ps, st_)
+            ok = bool(reach) and c in lens
+            for p, conds in reach:
+                if not any(pres_text in t and ' & ' in t and pol for t, pol in ((x[0], x[1]) for x in conds)):
+                    ok = False
+            ctx.instance('C07.R5', '%s.MembersType.decode_additions: open-type length read under the presence-bit test' % codec, 'ok' if ok else 'VIOLATION', node=c, file=m.rel)
             if not ok:
                 ctx.violation('C07.R5', m.rel, c, '%s::MembersType.decode_additions' % m.rel,
                               'an open-type length determinant is read without testing the presence bit of that addition: the number of open types consumed no longer equals '
                               'the number of presence bits set, and everything after the SEQUENCE is decoded from the wrong position', stmt='length read not under presence test')
-        # R2: skip argument derives from the length read in the same iteration
-        skips = [c for c in walk_no_nested(f) if isinstance(c, ast.Call) and ast.unparse(c.func) == 'decoder.skip_bits' and any(a is loop for a in flow.ancestors(c))]
-        unknown_skip = [s for s in skips if any((not pol) and 'len(self.additions)' in ast.unparse(t) for t, pol in flow.guards_of(s, f))]
+        # R2: on the path for an addition this version does not know (no member decode) the skip is 8 * the length read in that iteration
         ok = False
-        for s in unknown_skip:
-            for nm in names_in(s.args[0]):
-                for asg in walk_no_nested(loop):
-                    if isinstance(asg, ast.Assign) and nm in [x for t in asg.targets for x in flow.target_names(t)] and 'read_length_determinant' in ast.unparse(asg.value):
-                        ok = ast.unparse(s.args[0]).replace(' ', '') in ('8*%s' % nm, '%s*8' % nm)
+        seen_skip = False
+        for p in sem.with_loop_bodies(ps):
+            sk = p.calls('skip_bits')
+            if not sk or p.calls('decode'):
+                continue
+            if not p.mentions('len(self.additions)'):
+                continue
+            for t, n in sk:
+                seen_skip = True
+                arg = None
+                for ev in p.events:
+                    if ev[0].endswith('call') and ev[2] is n:
+                        arg = ev[3].args[0] if ev[3].args else None
+                if arg is None:
+                    continue
+                d = sem.lin(arg)
+                if len(d) == 1 and list(d.values()) == [8] and 'read_length_determinant(' in list(d.keys())[0]:
+                    ok = True
         ctx.instance('C07.R2', '%s.MembersType.decode_additions skips an unknown addition by 8 * its own length' % codec, 'ok' if ok else 'VIOLATION', node=f, file=m.rel)
         if not ok:
             ctx.violation('C07.R2', m.rel, f, '%s::MembersType.decode_additions' % m.rel,
@@ -227,9 +268,10 @@ def check(ctx):
 
     # ---- R4
     f = ber.classes['MembersType'].methods['decode_content']
-    calls = [c for c in walk_no_nested(f) if isinstance(c, ast.Call) and ast.unparse(c.func) == 'self.decode_members']
-    root = [c for c in calls if 'self.root_members' in ast.unparse(c.args[0])]
-    adds = [c for c in calls if 'self.additions' in ast.unparse(c.args[0])]
+    v = sem.View(f)
+    calls = [c for c in sem.method_calls(f, 'decode_members', v) if c.args]
+    root = [c for c in calls if 'self.root_members' in v.text(c.args[0])]
+    adds = [c for c in calls if 'self.additions' in v.text(c.args[0])]
     ok = len(root) == 1 and len(adds) == 1 and any(k.arg == 'ignore_missing' and isinstance(k.value, ast.Constant) and k.value.value is True for k in adds[0].keywords) \
         and not any(k.arg == 'ignore_missing' for k in root[0].keywords)
     ctx.instance('C07.R4', 'ber.MembersType.decode_content: additions ignore_missing=True, root strict', 'ok' if ok else 'VIOLATION', node=f, file=ber.rel)
@@ -237,7 +279,10 @@ def check(ctx):
         ctx.violation('C07.R4', ber.rel, f, '%s::MembersType.decode_content' % ber.rel,
                       'additions must be decoded with ignore_missing=True (an older encoding lacks them) and root members without it', stmt='lenient additions')
     dm = ber.classes['MembersType'].methods['decode_members']
-    ok = any(isinstance(n, ast.If) and ast.unparse(n.test) == 'ignore_missing' and isinstance(n.body[0], ast.Break) for n in walk_no_nested(dm))
+    # some path of the member loop leaves it (break / return) under ignore_missing instead of raising
+    dps = sem.with_loop_bodies(sem.paths(dm) or [])
+    ok = any(p.outcome[0] in ('break', 'return') and p.has('ignore_missing', True) for p in dps) and \
+        not any(p.outcome[0] == 'raise' and p.has('ignore_missing', True) and p.outcome[1] not in ('reraise', 'e') for p in dps)
     ctx.instance('C07.R4', 'ber.MembersType.decode_members: a missing addition ends the scan without error', 'ok' if ok else 'VIOLATION', node=dm, file=ber.rel)
     if not ok:
         ctx.violation('C07.R4', ber.rel, dm, '%s::MembersType.decode_members' % ber.rel, 'with ignore_missing a missing mandatory addition must not raise', stmt='ignore_missing handling')
